@@ -364,6 +364,10 @@ func (s *session) ModifySocket(fn func(conn net.Conn) (modifiedConn net.Conn, ne
 	if !isModifiedConn && !isNewProtoFunc {
 		return
 	}
+	if !isModifiedConn {
+		// only the protocol changes: keep the connection
+		modifiedConn = conn
+	}
 	var pub goutil.Map
 	if s.socket.SwapLen() > 0 {
 		pub = s.socket.Swap()
